@@ -41,19 +41,19 @@ Definition p2p_row (d : nat) (s n : list T) : list T :=
 Definition p2p_y (ps : nat) (s t n : list T) : T :=
   sumn N ps (fun c => nmul N (nsub N (vget N t c) (vget N s c)) (vget N n c)).
 
-(* setDataSize(numberOfPoints), then J(n,:) and Y(n) for every correspondence (W_ is not touched) *)
-Definition p2p_load (fill : T) (d ps : nat) (triples : list ((list T * list T) * list T)) (st : ls_state)
+(* setDataSize(numberOfPoints), then J(n,:) and Y(n) for every correspondence.  W_ is not touched by the C++ code:
+   in the op language of LsModel a row write carries a weight, so the weight written back is the one already stored
+   (the contents of W_ after the setDataSize). *)
+Definition p2p_load (fill : T) (svd_fixed : bool) (d ps : nat) (triples : list ((list T * list T) * list T)) (st : ls_state)
   : option ls_state :=
-  fold_left
-    (fun (acc : option ls_state) (it : nat * ((list T * list T) * list T)) =>
-       match acc with
-       | None => None
-       | Some s0 =>
-         let '(i, ((s, t), n)) := it in
-         ls_set_row i (p2p_row d s n) (p2p_y ps s t n) (vget N (ls_W s0) i) s0
-       end)
-    (combine (seq 0 (length triples)) triples)
-    (Some (fst (ls_set_data_size N fill (length triples) st))).
+  let n := length triples in
+  let rows := map (fun tr : (list T * list T) * list T => p2p_row d (fst (fst tr)) (snd tr)) triples in
+  let ys := map (fun tr : (list T * list T) * list T => p2p_y ps (fst (fst tr)) (snd (fst tr)) (snd tr)) triples in
+  let ws := ls_W (fst (ls_set_data_size N fill n st)) in
+  match ls_run N inverse_of svd_of fill svd_fixed (load_ops N n rows ys ws) st with
+  | Some (st1, _) => Some st1
+  | None => None
+  end.
 
 (* the solution scattered into Identity + skew + translation column *)
 Definition p2p_scatter (d : nat) (x : list T) : list (list T) :=
@@ -78,7 +78,7 @@ Definition p2p_scatter (d : nat) (x : list T) : list (list T) :=
 (* estimate_ : [svd_fixed] selects the repaired / original SVD path of LeastSquares (see LsModel.v) *)
 Definition p2p_estimate (fill : T) (svd_fixed : bool) (d ps : nat) (triples : list ((list T * list T) * list T))
            (st : ls_state) : option (ls_state * list (list T)) :=
-  match p2p_load fill d ps triples st with
+  match p2p_load fill svd_fixed d ps triples st with
   | None => None
   | Some st1 =>
     match (if svd_fixed then ls_estimate_svd N svd_of st1 else ls_estimate_svd_abs N svd_of st1) with
